@@ -949,6 +949,7 @@ func DeleteHistoricVersions(ctx context.Context, s *DB, before time.Time) error 
 	if err != nil {
 		return fmt.Errorf("get historic roots: %w", err)
 	}
+	roots, nodes = verifDeleteOrder(roots), verifDeleteOrder(nodes)
 	for _, l := range nodes {
 		// the node cache doubles as the record of what is already stored:
 		// forget the node, or a later commit that produces the same node
